@@ -397,9 +397,19 @@ def check_case(case):
         return None
     if kind == "params":
         # instances that differ only in multiplier / fingers keep their own values; equal ones share one call
-        req = dict(tp=MosType.NMOS, family=MosFamily.CORE, vth=MosVth.STD)
-        if not P["mos"](h.Mos(**req).params):
-            return None
+        # ... for EVERY device of the PDK: each satisfiable (type, family, threshold) request and each model name
+        reqs = [r for r in mos_requests("quick") if len(P["mos"](h.Mos(**r).params)) == 1]
+        reqs += [dict(model=mname) for mname in P["models"]]
+        for req in reqs:
+            r = _params_pass_through(h, P, pname, req, case, w)
+            if r is not None:
+                return r
+        return None
+    return _check_case_rest(case, kind, pname, arg, P, w)
+
+
+def _params_pass_through(h, P, pname, req, case, w):
+    if True:
         top = h.Module(name="PTop")
         top.a, top.b, top.c, top.d = h.Signals(4)
         variants = [dict(mult=1), dict(mult=2), dict(mult=4, nf=2), dict(mult=2), dict(w=3 * h.prefix.µ, l=1 * h.prefix.µ, mult=2),
@@ -409,8 +419,9 @@ def check_case(case):
         try:
             P["compile"](top)
         except Exception as e:
-            return (f"{pname}.params.raises", f"{case!r}: {type(e).__name__}: {str(e)[:100]}", w)
+            return (f"{pname}.params.raises", f"{case!r} {req}: {type(e).__name__}: {str(e)[:100]}", w)
         calls = [top.instances[f"m{k}"].of for k in range(len(variants))]
+        case = (case, tuple(sorted((k, getattr(v, "name", v)) for k, v in req.items())))
 
         def getp(c, names_):
             prm = c.params
@@ -432,6 +443,12 @@ def check_case(case):
         if calls[0] is calls[1] or calls[4] is calls[5]:
             return (f"{pname}.cache-conflates", f"{case!r}: different primitive parameters share one device call", w)
         return None
+
+
+def _check_case_rest(case, kind, pname, arg, P, w):
+    import hdl21 as h
+    from hdl21.primitives import MosType, MosFamily, MosVth
+    from rtc.wf import wf_package
     if kind == "pairs-and-frame":
         # two different satisfiable requests in ONE compile, in both orders: each instance gets the device it gets when
         # compiled alone (equal parameters <=> same call); the parameter objects the designer holds are left as they were
@@ -571,6 +588,28 @@ def check_cells(case):
     w = {"case": repr(case)}
     mod = importlib.import_module(modname)
     cells = [(n, v) for n, v in vars(mod).items() if isinstance(v, h.ExternalModule)]
+    # pin order: every cell's ports are, in order, the pin list its library file writes for it (the order of the foundry's
+    # .subckt, which is what a netlist's positional connections are read against) - all cells, not only the sampled ones
+    import ast as _ast
+    declared = {}
+    for node in _ast.parse(open(mod.__file__).read()).body:
+        if isinstance(node, _ast.Assign) and isinstance(node.value, _ast.Call) and len(node.targets) == 1 and \
+                isinstance(node.targets[0], _ast.Name) and getattr(node.value.func, "id", "") == "logic_module":
+            try:
+                args = [_ast.literal_eval(a) for a in node.value.args]
+            except Exception:
+                continue
+            lists = [a for a in args if isinstance(a, list)]
+            if lists:
+                declared[node.targets[0].id] = (args[0], lists[0])
+    if len(declared) * 2 < len(cells):
+        return ("cells.harness", f"{modname}: only {len(declared)} of {len(cells)} cell declarations could be read", w)
+    for n, em in cells:
+        if n in declared:
+            name, pins = declared[n]
+            got = [p_.name for p_ in em.port_list]
+            if em.name != name or got != pins:
+                return ("cells.pin-order", f"{modname}.{n}: ports {got} (module {em.name}), the library declares {name} {pins}", w)
     if seed >= 0:
         cells = [c for k, c in enumerate(cells) if k % 16 == seed % 16]
     bad = 0
